@@ -24,7 +24,10 @@ LEVEL_NOTE = ("trusted: translator + Xval semantics, the hand models of member c
 TECHNIQUE = "Coq proof over translator-regenerated per-case formulas + extracted-model correspondence check (exhaustive tie grid)"
 SITES = ["C13.brier_ens_cell", "C13.sqerr"]
 RULE = ("(a) exhaustive cell grid: every ensemble of 0-3 members over {1,2,3,NaN} x obs in {1,2,3,NaN,+inf} x thresholds {1,2,3} x 4 operators x "
-        "fair on/off (a member/obs equal to the threshold in most cells); (b) random full calls: 1-3 extra dims of size 1-3, ensemble size 1-4, "
+        "fair on/off (a member/obs equal to the threshold in most cells); (a') large ensembles of 32..2100 members (sizes around 2^15, 2^16, "
+        "2^31, 2^32 for m^2(m-1) and i(m-i), 2^7/2^8 for the counts), six missing-member patterns, thresholds sweeping i from 0 to m, 4 "
+        "operators x fair on/off, cell by cell against the exact oracle; (b) random full calls: 1-3 extra dims of size 1-3, ensemble size 1-4 "
+        "(12%: 33-100 members), "
         "obs/weights on random dim subsets (weights possibly with an extra dim), shuffled coordinate order, values on the grid k/2 (|k|<=4), NaN "
         "injected into members (whole ensembles too), obs and weights, 1-3 increasing thresholds or a scalar, all request spellings, and a "
         "malformed stream (bad operator, threshold_dim clashes, decreasing thresholds, ensemble dim missing / in obs / named in the request); "
@@ -126,6 +129,8 @@ def gen_ens_case(ctx, malformed):
     sizes = gens.rand_sizes(rng, names=["a", "b", "c"], maxdims=2, maxsize=3, mindims=0 if rng.random() < 0.15 else 1)
     sizes_f = dict(sizes)
     sizes_f["ens"] = rng.randint(1, 4)
+    if rng.random() < 0.12:            # operational-size ensembles: the counts and the fair correction beyond the 16-bit range
+        sizes_f["ens"] = rng.choice([33, 34, 40, 51, 64, 100])
     grid = [Fraction(k, 2) for k in range(-4, 5)]
     fcst = gens.rand_da(rng, sizes_f, values=grid, nan_p=rng.choice([0.0, 0.15, 0.5]))
     if rng.random() < 0.3 and sizes:
@@ -285,6 +290,66 @@ def oracle_probes(ctx):
     ctx.count("dtype_probes", 72)
 
 
+LARGE_SIZES = [32, 33, 41, 51, 64, 100, 128, 182, 256, 257, 363, 1000, 1291, 1626, 2100]
+
+
+def large_ensemble_probe(ctx, sizes=None):
+    """operational-size ensembles (33 ... 2100 members, some missing): the member counts i, m and every intermediate of the fair correction
+    i(m-i)/(m^2(m-1)) (m^2(m-1) passes 2^15 at m = 33, 2^16 at 41, 2^31 at 1291, 2^32 at 1626; i(m-i) passes 2^15 at m = 363; the counts
+    themselves pass 2^7 / 2^8 at 128 / 256 and the float16 integers at 2049) must be evaluated without wrap-around or rounding beyond
+    binary64: implementation vs the exact-rational oracle, per (case, threshold) cell, all four operators, fair on/off"""
+    P, _ = S()
+    rng = ctx.rng
+    sizes = list(sizes or LARGE_SIZES)
+    npts = 0
+    for M in sizes:
+        if not ctx.time_left():
+            break
+        base = np.arange(M, dtype=float)
+        rows = [base.copy(),                                              # i sweeps 0..m with the thresholds below
+                base[::-1] / 2.0,                                          # halves, decreasing order, ties with the thresholds
+                np.where(np.arange(M) % 5 == 0, NAN, base),                # every fifth member missing
+                np.where(np.arange(M) < M - 33, NAN, base),                # exactly 33 (or all, if fewer) valid members
+                np.where(np.arange(M) < M - 1, NAN, base),                 # a single valid member: no correction
+                np.array([float(rng.randint(0, 8)) for _ in range(M)])]    # few distinct values: many members equal to a threshold
+        k = rng.randrange(M)
+        rows[5][k] = NAN
+        f = xr.DataArray(np.array(rows), dims=["case", "ens"], coords={"case": range(len(rows)), "ens": np.arange(M)})
+        o = xr.DataArray([float(M // 2), 0.0, NAN, float(M), float(M - 1), 4.0], dims=["case"], coords={"case": range(len(rows))})
+        ts = sorted({0.0, 4.0, float(M // 4) + 0.5, float(M // 2), float(M - 1)})
+        for opn in OPS:
+            for fair in (True, False):
+                c = dict(fcst=f, obs=o, w=None, ts=ts, scalar=False, opn=opn, fair=fair, rd=None, pd="all", tdim="threshold", ens="ens")
+                impl = call_ens(P, c)
+                ctx.case(("large_ensemble", M, opn, fair, k))
+                if impl[0] != "ok":
+                    ctx.violation("brier_score_for_ensemble raises on a valid call (large ensemble)", {"ensemble_size": M, "operator": opn, "fair_correction": fair,
+                                                                                                        "event_thresholds": ts}, "values", impl[1])
+                    continue
+                r = impl[1].transpose("case", "threshold")
+                for a, row in enumerate(rows):
+                    valid = [x for x in row if not np.isnan(x)]
+                    for b, t in enumerate(ts):
+                        exp = brier_cell_oracle(list(row), float(o.values[a]), t, opn, fair)
+                        got = float(r.values[a, b])
+                        npts += 1
+                        if not core.close(got, exp):
+                            i = sum(1 for x in valid if OPS[opn](x, t))
+                            ctx.violation("brier_score_for_ensemble of a large ensemble differs from (i/m - y)^2 - [fair, m>1] i(m-i)/(m^2(m-1)) (exact oracle)",
+                                          {"ensemble_size": M, "valid_members_m": len(valid), "members_meeting_the_relation_i": i,
+                                           "members": "row %d of large_ensemble_probe(M=%d): %s" % (a, M, ["arange(M)", "arange(M)[::-1]/2", "arange(M), every 5th NaN",
+                                                                                                         "arange(M), all but the last 33 NaN", "arange(M), all but the last NaN",
+                                                                                                         str(row.tolist())[:400]][a]),
+                                           "obs": float(o.values[a]), "threshold": t, "operator": opn, "fair_correction": fair}, exp, got)
+                # reduced over the cases (default request) = plain NaN-skipping mean of the per-case oracle
+                red = call_ens(P, dict(c, pd=None))
+                if red[0] == "ok":
+                    compare_with_oracle(ctx, "brier_score_for_ensemble (large ensemble, all cases reduced) differs from the mean of the exact per-case oracle",
+                                        ens_oracle_array(c), None, red[1], {"ensemble_size": M, "operator": opn, "fair_correction": fair, "event_thresholds": ts})
+    ctx.count("large_ensemble_cells", npts)
+    ctx.count("large_ensemble_sizes", len(sizes))
+
+
 def full_ens(ctx, use_model=True):
     P, _ = S()
     rng = ctx.rng
@@ -303,6 +368,8 @@ def full_ens(ctx, use_model=True):
             ctx.count("ens:malformed=" + c["bad"])
         if c["w"] is not None:
             ctx.count("ens:weights")
+        if c["fcst"].sizes.get("ens", 0) >= 33:
+            ctx.count("ens:large_ensemble(>=33 members)")
         if i < 2:
             ctx.sample(desc)
         if impl[0] == "ok" and not c["bad"] and "z" not in c["obs"].dims:
@@ -513,6 +580,7 @@ def run(ctx):
     corpus(ctx)
     brier_boundaries(ctx)
     oracle_probes(ctx)
+    large_ensemble_probe(ctx)
     cell_grid(ctx)
     full_ens(ctx)
     full_brier(ctx)
@@ -524,6 +592,7 @@ def run_without_model(ctx):
     corpus(ctx)
     brier_boundaries(ctx)
     oracle_probes(ctx)
+    large_ensemble_probe(ctx)
     cell_grid(ctx, use_model=False)
     full_ens(ctx, use_model=False)
     full_brier(ctx, use_model=False)
